@@ -84,7 +84,7 @@ def compare(pid, case, mline, iline):
 
 FIXED_SEEN = []
 FIXED2_SEEN = []
-FIXED2_EXPECTED = "fixed sigconn M:x=22,r=27,seen=5,size=0,conn=0,after=1/0 C:x=32,r=27,size=0,conn=0 F:x=42,s=n=77,r=42,size=0 R:ref=1,cref=1,hideref=1,hidecref=1 P:x=22,r=27,seen=5,bx=21,br=28,bseen=12,cx=32,cr=27 Q:pf=1,hide=1,bind=1 V:1e2e3e4ee N:-7,1,-3,200,25,-9 A:emit=1,call=1,n=23 T:ccc0"
+FIXED2_EXPECTED = "fixed sigconn M:x=22,r=27,seen=5,size=0,conn=0,after=1/0 C:x=32,r=27,size=0,conn=0 F:x=42,s=n=77,r=42,size=0 R:ref=1,cref=1,hideref=1,hidecref=1 P:x=22,r=27,seen=5,bx=21,br=28,bseen=12,cx=32,cr=27 Q:pf=1,hide=1,bind=1 V:1e2e3e4ee N:-7,1,-3,200,25,-9 A:emit=1,call=1,n=23 T:ccc0 U:1ee50e X:c07110"
 FIXED_EXPECTED = "fixed slotref A:outer_nonempty=1,inner_empty=1 B:inner_empty=1,outer_empty=1,copy_empty=0 C:inner_empty=1,outer_empty=1 D:outer2_empty=1"
 
 
